@@ -236,6 +236,17 @@ check("C12", "no schedule can hang the registry", "exploration",
       "DESIGN.md §3 C12",
       [R("^TestC12$", 400, 12000, shards=(8, 16), timeout=(900, 3300)), R("^TestC12Shutdown$", 48, 1200, shards=(4, 8), timeout=(900, 3300))], variant="vsync")
 
+check("C19", "every setting has its documented effect", "exploration",
+      "rapid over Config values (defaults), over flag vectors of the built binary with a probe battery vs a behaviour table, over request/address/delay sequences in a synctest bubble vs the accounting-window model, and over signal moments",
+      "Four generated layers: (1) arbitrary Config values through SetDefaults twice (explicit values kept, documented defaults filled, idempotent); (2) 'olareg serve' built from the tree under test and started "
+      "as a process per generated flag vector, probed over loopback and compared with the behaviour table written from the flag help (push/delete/blob-delete/referrer/read-only/store type/dir/warnings/rate limit); "
+      "(3) the rate limiter on a virtual clock against RateLimit 1-5 with requests arriving via RemoteAddr (several ports) and X-Forwarded-For; (4) SIGTERM/SIGINT while idle, during a slow upload or a burst: exit "
+      "status 0 within 20 s, the directory a valid layout, everything acknowledged still served by a fresh server.",
+      "Trusted: the behaviour table in c19_test.go (from the flag help text and config.go comments); testing/synctest for layer 3; a request exactly one second after its window opened may be counted either way; "
+      "the microsecond window between signal.Notify and Server.Run storing its http.Server cannot be hit from outside the process (not claimed).",
+      "DESIGN.md §3 C19",
+      [R("^TestC19Defaults$", 20000, 1000000), R("^TestC19Rate$", 8000, 400000), R("^TestC19CLI$", 24, 640, shards=(6, 16), timeout=(900, 3300))], variant="go126")
+
 NOT_APPLICABLE = {}
 
 # --------------------------------------------------------------------------- helpers
